@@ -242,7 +242,7 @@ class ModelGen:
             for q in dims:
                 n *= q
             vals = [r.choice([16777217.0, 0.1, 1.0 / 3.0, 1e-30, 123456789.123456789, 2.0, -4294967297.0]) for _ in range(n)]
-            c = self.const(g, H.make_tensor("value", TP.DOUBLE, dims, vals))
+            c = self.const(g, H.make_tensor("value", TP.DOUBLE, dims, vals), r.random() < 0.3)
             if dims == [5]:
                 c2 = self.namer.new()
                 self.node(g, "ReduceMax", [c], [c2], keepdims=0)
@@ -258,10 +258,19 @@ class ModelGen:
                 (TP.FLOAT16, [0.1]), (TP.INT32, [7]), (TP.UINT8, [200]), (TP.INT8, [-5]), (TP.DOUBLE, [0.1]),
                 (TP.BOOL, [True]), (TP.INT16, [-300]), (TP.UINT64, [2**40]), (TP.BFLOAT16, [1.5]),
             ])  # fmt: skip
-            dims = r.choice([[], [1]])
-            c = self.const(g, H.make_tensor("value", dt, dims, vals))
+            dims = r.choice([[], [1], [6]])
+            as_init = r.random() < 0.35
+            if dt == TP.BFLOAT16 and dims == [6] and r.random() < 0.7:
+                dims = [1]  # large BFLOAT16 initializers stay rare (generate_rand still refuses them)
+            c = self.const(g, H.make_tensor("value", dt, dims, vals * (6 if dims == [6] else 1)), as_init)
+            if dims == [6] and as_init:
+                self.flags.add("big_init_" + TP.DataType.Name(dt))
             f = self.namer.new()
             self.node(g, "Cast", [c], [f], to=TP.FLOAT)
+            if dims == [6]:
+                f2 = self.namer.new()
+                self.node(g, "ReduceMax", [f], [f2], keepdims=0)
+                f = f2
             self.node(g, "Add", [self.pick(g, "F"), f], [o])
             g.add("F", o)
         elif kind == "uint8":
